@@ -50,7 +50,7 @@ WARN2_KINDS = QUICK2_KINDS + ["mod", "ablock", "inh", "t2", "ns"]
 
 BOUNDS = {
     "quick": {
-        "raise_full_product": "weight<=1 over all 32 kinds, LF: every position x 13 raise kinds x 6 paths",
+        "raise_full_product": "weight<=1 over all 32 kinds, LF: every position x 14 raise kinds x 6 paths",
         "raise_rotated": "weight 2 over 7 kinds (QUICK2_KINDS) LF and weight<=1 over all kinds CRLF: every (program,position,kind) "
         "on one rotating path; plus weight 2 over {t1, include, inh} (text before an include / inherit chain) + HTML page for the 2 principal kinds and format_exceptions on one path",
         "warn": "weight<=1 (all kinds, LF) and weight 2 over {ablock, defb}: every position x 8 warning plants x 6 paths x {always,error}, 'once' on one rotating path; "
@@ -66,7 +66,7 @@ BOUNDS = {
         "paths": PATHS,
     },
     "thorough": {
-        "raise_full_product": "weight<=2 over all 32 kinds, LF: every position x 13 raise kinds x 6 paths",
+        "raise_full_product": "weight<=2 over all 32 kinds, LF: every position x 14 raise kinds x 6 paths",
         "raise_rotated": "weight 3 over 8 kinds (W3_KINDS) LF; weight<=2 over the 21 core kinds CRLF (rotating path + principal kinds on all paths)",
         "warn": "weight<=1 all kinds LF and CRLF, weight 2 over 12 kinds (WARN2_KINDS) LF: every position x 8 warning plants x 6 paths x {always,once,error}",
         "recompiled_module_file": "as quick, over weight<=2 (QUICK2_KINDS) LF and weight 1 all kinds LF+CRLF",
@@ -111,6 +111,10 @@ ASSUMPTIONS = [
     "a def default in a re-opened module directory: the template is not compiled again and the regenerated signature carries "
     "no warning-triggering literal, so the number of warnings shown there is not demanded",
     "sys.dont_write_bytecode is on (no .pyc), so a re-opened module directory compiles the module file again",
+    "r_base raises a BaseException that is not an Exception (custom class / SystemExit / KeyboardInterrupt / GeneratorExit by "
+    "seed): checked like any failure, with format_exceptions=True on every path (weight<=1) and, for it and the principal kinds, "
+    "RichTraceback(), RichTraceback(error=<class>), text/html_error_template().render(error=<class or instance>, traceback=None) "
+    "called inside the except block must agree with RichTraceback(error, traceback)",
     "universal: warnings.showwarning must be the same object before and after every construction+render of every case, "
     "whether it failed or not (checked inside the recording context, before that context restores the hook itself)",
     "history families cover process-wide state reached through the module path / the module id only (one edit of 2 comment "
@@ -327,7 +331,25 @@ class Checker:
         self.viol.append((sig, text, expected, observed))
 
     # ---- traceback
-    def check_tb(self, err, tb, b, chain, path, html):
+    def check_forms(self, forms, recs, text_out, html_out):
+        self.st.oracles["api_forms"] += 1
+        for name, (how, val) in forms.items():
+            if how == "raises":
+                self.bad("api:%s:raises:%s" % (name, val.split(":")[0]), "%s inside the except block fails" % name, None, val)
+            elif name.startswith("RichTraceback"):
+                if [tuple(r) for r in val] != [tuple(r) for r in recs]:
+                    self.bad("api:%s:records-differ" % name, "%s reports other records than RichTraceback(error, traceback)" % name, len(recs), len(val))
+            elif name == "text(error=instance)":
+                if text_out is not None and _norm(val) != _norm(text_out):
+                    self.bad("api:%s:differs" % name, "text page differs from the one rendered with explicit error and traceback", text_out[-300:], val[-300:])
+            elif name == "text(error=class)":
+                if text_out is not None and _norm(val)[:-1] != _norm(text_out)[:-1]:
+                    self.bad("api:%s:differs" % name, "frames of the text page differ from the one rendered with explicit error and traceback", text_out[-300:], val[-300:])
+            elif name == "html(error=class)":
+                if html_out is not None and _LOC.findall(val) != _LOC.findall(html_out):
+                    self.bad("api:%s:differs" % name, "location lines differ from the page rendered with explicit error and traceback", None, _LOC.findall(val)[:4])
+
+    def check_tb(self, err, tb, b, chain, path, html, forms=None):
         from mako import exceptions
 
         st = self.st
@@ -402,8 +424,9 @@ class Checker:
         # text error template
         st.oracles["text_template"] += 1
         st.transitions += 1
+        text_out = html_out = None
         try:
-            out = _text_template().render_unicode(error=err, traceback=tb)
+            out = text_out = _text_template().render_unicode(error=err, traceback=tb)
             exp = "Traceback (most recent call last):\n" + "".join(
                 '  File "%s", line %s, in %s\n    %s\n' % (f, l, fn or "?", ("" if s is None else str(s)).strip()) for f, l, fn, s in fmt
             ) + "%s: %s" % (type(err).__name__, str(err))
@@ -415,13 +438,15 @@ class Checker:
             st.oracles["html_template"] += 1
             st.transitions += 1
             try:
-                out = _html_template().render_unicode(error=err, traceback=tb)
+                out = html_out = _html_template().render_unicode(error=err, traceback=tb)
                 revisited = bool(obs) and any(o[0] == obs[-1][0] for o in obs[:-1]) and rt.source != low.files[obs[-1][0]]
                 # the excerpt is cut from tb.source: when that is already reported as another template's source, the
                 # highlighted line is not judged a second time
                 self.check_html(out, [(f, l) for f, l, _fn, _s in fmt][::-1], obs[-1][1] if obs and not revisited else None, "html")
             except Exception as e:  # noqa
                 self.bad("html:raises:" + type(e).__name__, "html_error_template failed", None, repr(e)[:300])
+        if forms:
+            self.check_forms(forms, recs, text_out, html_out)
 
     def check_html(self, out, locs, hl, tag):
         from mako import exceptions
@@ -449,6 +474,27 @@ class Checker:
             self.bad(sig, "format_exceptions page: " + txt, [[e["uri"], e["lines"]] for e in chain], obs)
         elif obs:
             self.check_html(out, None, obs[-1][1], "fmtexc")
+
+
+def api_forms(e, html):
+    """the documented ways to ask for the current error, called inside the except block that handles it"""
+    from mako import exceptions
+
+    out = {}
+
+    def tryit(name, fn):
+        try:
+            out[name] = ("ok", fn())
+        except BaseException as x:  # noqa
+            out[name] = ("raises", "%s: %s" % (type(x).__name__, str(x)[:200]))
+
+    tryit("RichTraceback()", lambda: list(exceptions.RichTraceback().records))
+    tryit("RichTraceback(error=class)", lambda: list(exceptions.RichTraceback(error=type(e), traceback=None).records))
+    tryit("text(error=instance)", lambda: _text_template().render_unicode(error=e, traceback=None))
+    tryit("text(error=class)", lambda: _text_template().render_unicode(error=type(e), traceback=None))
+    if html:
+        tryit("html(error=class)", lambda: _html_template().render_unicode(error=type(e), traceback=None))
+    return out
 
 
 def _norm(s):
@@ -621,13 +667,16 @@ class Runner:
         b = None
         out = None
         err = tb = None
+        forms = None
         hook0 = warnings.showwarning
         try:
             try:
                 b = build(low, path, d, {"format_exceptions": True} if mode == "fmtexc" else None)
                 out = b.main.render_unicode(**self.rctx)
-            except Exception as e:  # noqa
+            except BaseException as e:  # noqa  (a planted BaseException is an expected outcome)
                 err, tb = e, e.__traceback__
+                if mode != "fmtexc" and b is not None and (kind in PRINCIPAL or kind == "r_base"):
+                    forms = api_forms(e, mode == "html")
             if not hook_check(ck, st, hook0, "after-failed-construction" if b is None else "after-render"):
                 warnings.showwarning = hook0
             st.oracles["outcome"] += 1
@@ -652,7 +701,7 @@ class Runner:
                 elif b is None or type(err).__name__ != type(exc).__name__ or str(err) != str(exc):
                     ck.bad("outcome:other-exception:" + type(err).__name__, "another exception than the planted one", repr(exc), repr(err)[:300])
                 else:
-                    ck.check_tb(err, tb, b, chain, path, mode == "html")
+                    ck.check_tb(err, tb, b, chain, path, mode == "html", forms)
         finally:
             if b is not None and getattr(b, "templates", None):
                 for t in b.templates.values():
@@ -1045,6 +1094,10 @@ def run_program(r, body, pi, nl, scheme):
                 r.run_raise(body, nl, si, kind, path, "html" if principal and path == PATHS[rot] else "plain", ref=ref, low=low)
             if kind == "r_expr":
                 r.run_raise(body, nl, si, kind, PATHS[rot], "fmtexc", ref=ref, low=low)
+            elif kind == "r_base":
+                # format_exceptions=True: errors that are not Exception subclasses reach the error page by another route
+                for path in (PATHS if scheme == "full" else [PATHS[rot]]):
+                    r.run_raise(body, nl, si, kind, path, "fmtexc", ref=ref, low=low)
 
 
 def replay(case):
